@@ -87,6 +87,7 @@ class Sim:
         self.policy = policy or {"kind": "random", "bias": 1}
         self._pct_points = None
         self._names = set()
+        self.line_preempt = None   # optional sim.linepreempt.LinePreempt
 
     # ------------------------------------------------------------------ log
     def event(self, *parts):
@@ -126,15 +127,20 @@ class Sim:
 
     def _task_main(self, t):
         t.sem.acquire()
+        lp = self.line_preempt if t.name != "main" else None
         try:
             if self.aborted is None:
                 self.current = t
+                if lp is not None:
+                    lp.install()
                 t.result = t.fn(*t.args, **t.kwargs)
         except SimAbort:
             pass
         except BaseException as e:   # noqa - stored, re-raised by whoever joins
             t.exc = e
         finally:
+            if lp is not None:
+                lp.uninstall()
             t.state = DONE
             self.bump()
             if t.on_exit is not None:
